@@ -1,7 +1,18 @@
 #!/bin/sh
-# resolve the two routinely conflicting generated/union files after `git pull` of a family branch
+# resolve the routinely conflicting generated/union files after `git pull` of a family branch
 cd "$(dirname "$0")/.."
-python3 tools/mergekf.py && python3 tools/fixhashes.py
+if git status --short | grep -q "^UU known_findings.json\|^AA known_findings.json"; then python3 tools/mergekf.py || exit 1; fi
+python3 tools/fixhashes.py
+for f in $(git status --short | grep "^UU evidence/\|^AA evidence/" | awk '{print $2}'); do git checkout --ours "$f"; done
 git checkout --ours MANIFEST.json 2>/dev/null
 python3 tools/mkmanifest.py
-python3 -c "import json;json.load(open('known_findings.json'));json.load(open('MANIFEST.json'))" && git add -A && git commit -qm "$1" && echo merged
+if git status --short | grep -q "^UU\|^AA"; then
+  left=$(git status --short | grep "^UU\|^AA" | grep -v "known_findings.json\|MANIFEST.json\|evidence/")
+  if [ -n "$left" ]; then echo "UNRESOLVED: $left"; exit 1; fi
+fi
+python3 - <<'P' || exit 1
+import json,glob
+json.load(open('known_findings.json')); json.load(open('MANIFEST.json'))
+for f in glob.glob('evidence/*.json'): json.load(open(f))
+P
+git add -A && git commit -qm "$1" && echo merged
